@@ -790,7 +790,7 @@ def call_builtin(ex, name, args, kwargs):
                 return fam
             raise OutOfSubset("family with several binders")
         s = ex.as_set(a)
-        kind = "list" if name in ("list", "tuple") else "set"
+        kind = "list" if name in ("list", "tuple") else ("frozenset" if name == "frozenset" else "set")
         out = VSet(s.pred, arity=s.arity, kind=kind, owned=True)
         return out
     if name == "isinstance":
@@ -1049,6 +1049,9 @@ def isinstance_(ex, v, t):
     if isinstance(v, (VSet, VSeq, VTuple, VComp, VFam, VDict)):
         if tn in ("str", "y0.graph.NxMixedGraph") or tn.startswith("y0.dsl."):
             return L.F()
+        if tn in ("frozenset", "set") and isinstance(v, VSet) and v.kind in ("set", "frozenset"):
+            # the container kind is tracked for sets built by set(...) / frozenset(...) / comprehensions / frozen fields
+            return z3.BoolVal(v.kind == tn)
         raise OutOfSubset(f"isinstance(collection, {tn})")
     if isinstance(v, VObj) and isinstance(v.cls, ClassInfo) and t.kind == "class":
         return z3.BoolVal(ex.repo.is_subclass(v.cls, tn))
